@@ -35,7 +35,7 @@ def jobs(tier, seed):
         out.append({'fn': 'program', 'cfg': {'target': i, 'extra': 2 if tier == 'quick' else 3}})
     for ch in C.chunks(list(range(len(D.INVALID))), 7):
         out.append({'fn': 'rejected', 'cfg': {'steps': ch}})
-    out.append({'fn': 'program', 'cfg': {'target': 7, 'extra': 0, 'canary': True}, 'canary': True})
+    out.append({'fn': 'program', 'cfg': {'target': D.VALID_INDEX['unit-a1'], 'extra': 0, 'canary': True}, 'canary': True})
     LAST_CONFIG_INFO.clear()
     LAST_CONFIG_INFO.update({'valid_templates': len(D.VALID), 'invalid_templates': len(D.INVALID),
                              'free_steps': 3 if tier == 'quick' else 4, 'exhaustive': True})
